@@ -23,7 +23,9 @@ RULE = ('programs: family K (Conv1d k in 1..12, d in 1..2, s in 1..2, BN on/off,
         ' for (alpha, beta, gamma) of every non-frozen masker, (b) all abstract configurations within 1 deviation + corners x 4 value '
         'representatives; oracle: summary sizes >= 1, input/output-tied layers full width, export() succeeds, runs on the original input '
         'shape, returns the original output shape, exported sizes == summary(); non-trivial = a configuration in which at least one mask '
-        'vector is entirely at a "pruned" value')
+        'vector is entirely at a "pruned" value; every program is explored under one of four usage protocols (plain / train_net_only() first / '
+        'whole observation under no_grad with an extra summary() read after each export / train switches off first), rotating over the programs '
+        '(thorough: all four on G_pit and on K with k <= 4)')
 ASSUMPTIONS = ['receptive-field / dilation parameters are driven only on Conv1d layers padded as the PIT README prescribes (ConstantPad1d + valid, or padding="same")',
                'feature-mask parameters of frozen maskers ARE driven in the uniform-value sweep (they must have no effect); frozen RF / dilation parameters are not',
                'NaN / inf parameter values are not generated']
@@ -69,9 +71,23 @@ def cases(tier, seed):
         out.append({'prog': p, 'fold_bn': False})
     for m in TWOIN:
         out.append({'kind': 'twoin', 'model': m})
+    # usage protocol around the parameter writes (none of them may matter for the sizes): 0 = plain; 1 = train_net_only() called first
+    # (every mask has requires_grad False at summary / export time); 2 = the whole observation under no_grad in eval mode with an extra
+    # summary() read after each export (an evaluation loop); 3 = train_features / train_rf / train_dilation switched off first
+    n = 0
     for c in out:
         c['tier'] = tier
+        if c.get('kind') != 'twoin':
+            c['proto'] = n % len(PROTOS)
+            n += 1
+    if tier == 'thorough':
+        extra = [dict(c, proto=(c['proto'] + j) % len(PROTOS)) for c in out if c.get('kind') != 'twoin'
+                 and (c['prog'].get('family') != 'K' or c['prog']['stages'][-1]['k'] <= 4) for j in (1, 2, 3)]
+        out += extra
     return out
+
+
+PROTOS = ['plain', 'train_net_only-first', 'no_grad-eval-loop', 'train-switches-off-first']
 
 
 # ----------------------------------------------------------------------------------------------
@@ -221,8 +237,16 @@ def _raw_handles(pit):
     return fms, tms
 
 
-def _check_state(pit, prog, x, y0, full, star=False):
+def _check_state(pit, prog, x, y0, full, star=False, nograd=False):
     """-> list of (kind, msg)"""
+    if nograd:
+        with torch.no_grad():
+            bad = _check_state(pit, prog, x, y0, full, star)
+            try:
+                pit.summary()         # one more read after the export, as an evaluation loop would do; the next state starts from here
+            except Exception:
+                pass
+        return bad
     bad = []
     try:
         summ = pit.summary()
@@ -252,9 +276,14 @@ def _check_state(pit, prog, x, y0, full, star=False):
             bad.append(('output-shape-changed', f'exported network returns {tuple(y.shape)}, original {tuple(y0.shape)}'))
     except Exception as e:
         bad.append(('exported-net-does-not-run', f'{type(e).__name__}: {str(e)[:200]}'))
-    sc = D.struct_check(pit, exp, prog)
+    # the summary read BEFORE the export and the one read after it must both describe the exported network
+    sc = D.struct_check(pit, exp, prog, summ=summ)
     if sc:
-        bad.append(('exported-sizes-differ-from-summary', '; '.join(sc[:3])))
+        bad.append(('exported-sizes-differ-from-summary', 'summary() read before export(): ' + '; '.join(sc[:3])))
+    else:
+        sc = D.struct_check(pit, exp, prog)
+        if sc:
+            bad.append(('exported-sizes-differ-from-summary', 'summary() read after export(): ' + '; '.join(sc[:3])))
     return bad
 
 
@@ -274,6 +303,14 @@ def run_case(case, seed):
                                   'msg': f'PIT() raised {type(ctx["error"]).__name__}: {ctx["error"]}', 'case': base_case})
         return res
     pit, x, y0 = ctx['pit'], ctx['x'], ctx['y0']
+    proto = PROTOS[case.get('proto', 0)]
+    base_case['proto'] = case.get('proto', 0)
+    if proto == 'train_net_only-first':
+        pit.train_net_only()
+    elif proto == 'train-switches-off-first':
+        pit.train_features = False
+        pit.train_rf = False
+        pit.train_dilation = False
     pit.eval()
     full = G.must_be_full(prog)
     fms, tms = _raw_handles(pit)
@@ -282,9 +319,9 @@ def run_case(case, seed):
     def visit(label, nontriv):
         res['states'] += 1
         res['evals'] += 1
-        for kind, msg in _check_state(pit, prog, x, y0, full):
+        for kind, msg in _check_state(pit, prog, x, y0, full, nograd=(proto == 'no_grad-eval-loop')):
             res['outcomes'].add(kind)
-            res['violations'].append({'kind': kind, 'sig': f'{kind}/' + ssig, 'msg': f'{label}: {msg}',
+            res['violations'].append({'kind': kind, 'sig': f'{kind}/' + ssig + ('' if proto == 'plain' else '/' + proto), 'msg': f'{label} [{proto}]: {msg}',
                                       'case': dict(base_case, only=label)})
         else:
             res['outcomes'].add('alive')
@@ -319,7 +356,7 @@ def run_case(case, seed):
             res['transitions'] += len(cfg)
             visit(label, bool(cfg))
     res['outcomes'] = sorted(res['outcomes'])
-    res['sample'] = {'prog': prog, 'uniform_values': REPS, 'n_abstract_cfgs': len(cfgs), 'full_width_layers': sorted(full),
+    res['sample'] = {'prog': prog, 'protocol': proto, 'uniform_values': REPS, 'n_abstract_cfgs': len(cfgs), 'full_width_layers': sorted(full),
                      'searchable_feature_maskers': len(fms), 'time_searchable_convs': len(tms)}
     return res
 
